@@ -665,6 +665,9 @@ class Ctx:
             'wall_s': round(time.time() - self.t0, 2),
             'violations': self.nviol,
         }
+        if self.replay:
+            self.log('replay run: evidence file left untouched; exit=%d' % self.exit)
+            return self.exit
         os.makedirs(os.path.join(VERIF, 'evidence'), exist_ok=True)
         path = os.path.join(VERIF, 'evidence', '%s.json' % self.pid)
         tmp = path + '.tmp%d' % os.getpid()
@@ -843,7 +846,10 @@ def run_property(mod, argv):
         seed = 0
     ctx = Ctx(mod.PID, tier, seed, a.replay)
     try:
-        mod.run(ctx)
+        if a.replay and hasattr(mod, 'replay'):
+            mod.replay(ctx, json.load(open(a.replay)))
+        else:
+            mod.run(ctx)
     except (CoqEvalError, HarnessError) as e:
         ctx.log('infrastructure failure: %s: %s' % (type(e).__name__, e.args))
         ctx.broken(
